@@ -7,6 +7,7 @@ import (
 	"fmt"
 	"go/token"
 	"go/types"
+	"sort"
 	"strconv"
 	"strings"
 
@@ -471,19 +472,54 @@ func (m *machine) fmtPiece(fr *frame, verb byte, a value) (value, bool) {
 		}
 	case []value:
 		if verb == 'v' || verb == 's' {
-			allStr := true
-			parts := make([]string, len(a))
+			// %v of a slice: elements separated by one space, strings unquoted
+			var acc value = "["
 			for i, e := range a {
-				s, ok := e.(string)
+				p, ok := m.fmtPiece(fr, verb, e)
 				if !ok {
-					allStr = false
-					break
+					return nil, false
 				}
-				parts[i] = s
+				if i > 0 {
+					acc = m.binopStr(token.ADD, acc, " ")
+				}
+				acc = m.binopStr(token.ADD, acc, p)
 			}
-			if allStr {
-				return "[" + strings.Join(parts, " ") + "]", true
+			return m.binopStr(token.ADD, acc, "]"), true
+		}
+	case *mapV:
+		if verb == 'v' {
+			// %v of a map: map[k:v k:v] in key order (string keys only)
+			type kv struct {
+				k string
+				v value
 			}
+			var kvs []kv
+			if a != nil {
+				for _, e := range a.entries {
+					if e.deleted {
+						continue
+					}
+					k, ok := e.k.(string)
+					if !ok {
+						return nil, false
+					}
+					kvs = append(kvs, kv{k, e.v})
+				}
+			}
+			sort.Slice(kvs, func(i, j int) bool { return kvs[i].k < kvs[j].k })
+			var acc value = "map["
+			for i, e := range kvs {
+				p, ok := m.fmtPiece(fr, verb, e.v)
+				if !ok {
+					return nil, false
+				}
+				if i > 0 {
+					acc = m.binopStr(token.ADD, acc, " ")
+				}
+				acc = m.binopStr(token.ADD, acc, e.k+":")
+				acc = m.binopStr(token.ADD, acc, p)
+			}
+			return m.binopStr(token.ADD, acc, "]"), true
 		}
 	}
 	return nil, false
